@@ -1,4 +1,164 @@
-use crate::{ctx::CaseOut, Params};
-pub fn case(_idx: u64, _seed: u64, _p: &Params, o: &mut CaseOut) {
-    o.skipped = true;
+//! C07 — Bellman-Ford-Moore: exact distances, or None on a reachable negative
+//! circuit.
+
+use crate::ctx::CaseOut;
+use crate::gen::{self, WClass};
+use crate::model::Model;
+use crate::reprs::*;
+use crate::rng::{Fp, Rng};
+use crate::Params;
+use graaf::*;
+
+pub const WFAMS: [&str; 6] = ["non_negative", "potentials", "negative_dag", "planted_neg_circuit", "mixed_negative", "large_magnitude"];
+
+/// A weighted digraph with isize weights. Returns (model, weight family).
+pub fn gen_case(r: &mut Rng, max: usize, allow_neg_circuit: bool) -> (Model, &'static str, &'static str) {
+    let wf = r.below(WFAMS.len());
+    let n = gen::small_order(r, max);
+    let (fam, mut m);
+    match WFAMS[wf] {
+        "negative_dag" => {
+            fam = *r.pick(&[10usize, 11, 12, 3]);
+            m = gen::family(r, fam, n);
+            gen::weights(r, &mut m, WClass::NegDag);
+        }
+        "potentials" => {
+            fam = r.below(gen::FAMILIES.len());
+            m = gen::family(r, fam, n);
+            gen::weights(r, &mut m, WClass::Potentials);
+        }
+        "planted_neg_circuit" if allow_neg_circuit => {
+            fam = r.below(gen::FAMILIES.len());
+            m = gen::family(r, fam, n);
+            gen::weights(r, &mut m, WClass::Small);
+            // plant a circuit of negative total weight on 2..4 vertices
+            if n >= 2 {
+                let k = r.range(2, n.min(4));
+                let mut ids: Vec<usize> = (0..n).collect();
+                r.shuffle(&mut ids);
+                for i in 0..k {
+                    let w = if i == 0 { -r.irange(1, 30) } else { r.irange(0, 2) };
+                    m.add(ids[i], ids[(i + 1) % k], w);
+                }
+                // sometimes cut it off from the rest so that it is unreachable from most sources
+                if r.chance(0.5) {
+                    let members: Vec<usize> = ids[..k].to_vec();
+                    let cut: Vec<(usize, usize)> = m.arc_list().into_iter().filter(|&(u, v)| !members.contains(&u) && members.contains(&v)).collect();
+                    for (u, v) in cut {
+                        m.remove(u, v);
+                    }
+                }
+            }
+        }
+        "mixed_negative" if allow_neg_circuit => {
+            fam = r.below(gen::FAMILIES.len());
+            m = gen::family(r, fam, n);
+            gen::weights(r, &mut m, WClass::MixedNeg);
+        }
+        "large_magnitude" => {
+            fam = *r.pick(&[10usize, 11, 12, 13, 3]);
+            m = gen::family(r, fam, n);
+            // acyclic families: any sign is fine
+            let keys = m.arc_list();
+            for a in keys {
+                let w = r.irange(-1_000_000, 1_000_000);
+                m.arcs.insert(a, w);
+            }
+        }
+        _ => {
+            fam = r.below(gen::FAMILIES.len());
+            m = gen::family(r, fam, n);
+            let wc = *r.pick(&[WClass::Unit, WClass::ZeroOne, WClass::Small, WClass::Large]);
+            gen::weights(r, &mut m, wc);
+        }
+    }
+    // force the arc count through every residue mod 4
+    let want = r.below(4);
+    let mut guard = 0;
+    while m.size() % 4 != want && m.size() > 0 && guard < 4 {
+        let k = r.below(m.size());
+        let a = *m.arcs.keys().nth(k).unwrap();
+        m.remove(a.0, a.1);
+        guard += 1;
+    }
+    (m, WFAMS[wf], gen::FAMILIES[fam])
+}
+
+pub fn ref_row(m: &Model, s: usize) -> Result<Vec<isize>, ()> {
+    let d = m.dist_from(&[s])?;
+    Ok((0..m.n()).map(|v| d.get(&v).map_or(isize::MAX, |&x| x as isize)).collect())
+}
+
+pub fn case(idx: u64, seed: u64, p: &Params, o: &mut CaseOut) {
+    let mut r = Rng::for_case(7, seed, idx);
+    let (m, wf, fam) = gen_case(&mut r, p.usize("max_order", 14), true);
+    let n = m.n();
+    let d = if r.chance(0.5) { build_w_isize(&m) } else { build_w_isize_alt(&m) };
+    let any_neg_circuit = m.has_negative_circuit();
+    let nonneg = m.arcs.values().all(|&w| w >= 0);
+    let mut neg_reach = false;
+    let (mut n_none, mut n_some, mut n_either) = (0, 0, 0);
+    for s in 0..n {
+        let reach = m.reach(&[s]);
+        if m.arcs.iter().any(|(&(u, _), &w)| w < 0 && reach.contains(&u)) {
+            neg_reach = true;
+        }
+        let want = ref_row(&m, s);
+        let mut bfm = BellmanFordMoore::new(&d, s);
+        let got: Option<Vec<isize>> = bfm.distances().map(<[isize]>::to_vec);
+        match (&want, &got) {
+            (Err(()), Some(g)) => {
+                o.check(false, "Some-although-a-negative-circuit-is-reachable", || format!("source {s}: returned {g:?}"));
+            }
+            (Err(()), None) => {
+                o.comparisons += 1;
+                n_none += 1;
+            }
+            (Ok(w), None) => {
+                if any_neg_circuit {
+                    // a negative circuit exists but is not reachable from s: the statement admits both answers
+                    n_either += 1;
+                } else {
+                    o.check(false, "None-although-there-is-no-negative-circuit", || format!("source {s}: reference distances {w:?}"));
+                }
+            }
+            (Ok(w), Some(g)) => {
+                n_some += 1;
+                o.check(g == w, "distances", || format!("source {s}: got {g:?} want {w:?}"));
+            }
+        }
+        if nonneg {
+            if let Some(g) = &got {
+                let du = build_w_usize(&m);
+                let dj = DijkstraDist::new(&du, std::iter::once(s)).distances();
+                let dj: Vec<isize> = dj.iter().map(|&x| if x == usize::MAX { isize::MAX } else { x as isize }).collect();
+                // Dijkstra has its own property (C03); only report a disagreement that the model attributes to BFM
+                if &dj != g {
+                    o.check(Ok(g.clone()) == want, "disagrees-with-Dijkstra-and-with-the-model", || format!("source {s}: BFM {g:?} Dijkstra {dj:?}"));
+                } else {
+                    o.comparisons += 1;
+                }
+            }
+        }
+    }
+    let mut fp = Fp::new();
+    m.fingerprint(&mut fp);
+    o.fp = fp.0;
+    o.nontrivial = neg_reach;
+    o.bump(wf);
+    o.bump(fam);
+    o.bumpn("arcs%4", m.size() % 4);
+    o.bumpn("order", n);
+    if n_none > 0 {
+        o.bump("cases_with_None_required");
+    }
+    if n_either > 0 {
+        o.bump("cases_with_unreachable_negative_circuit");
+    }
+    if n_some > 0 && m.arcs.values().any(|&w| w < 0) {
+        o.bump("cases_with_Some_and_negative_arcs");
+    }
+    if o.want_desc {
+        o.desc = format!("AdjacencyListWeighted<isize> weights={wf} family={fam} {} (all {n} sources)", m.describe());
+    }
 }
